@@ -742,7 +742,7 @@ class Obs:
         return _format_uncertainty(self.value, self._dvalue)
 
     def __format__(self, format_type):
-        if format_type == "":
+        if format_type.replace("+", "").replace("-", "").strip() == "":
             significance = 2
         else:
             significance = int(float(format_type.replace("+", "").replace("-", "")))
@@ -1040,9 +1040,9 @@ class CObs:
         return 'CObs[' + str(self) + ']'
 
     def __format__(self, format_type):
-        if format_type == "":
+        if format_type.replace("+", "").replace("-", "").strip() == "":
             significance = 2
-            format_type = "2"
+            format_type = format_type + "2"
         else:
             significance = int(float(format_type.replace("+", "").replace("-", "")))
         return f"({self.real:{format_type}}{self.imag:+{significance}}j)"
